@@ -51,6 +51,10 @@ def cases(tier):
     for shape in dd.SHAPES:
         for i in range(len(dd.lattice(shape, tier, dd.TC_TIED))):
             out.append({"shape": shape, "tc": "tied", "i": i})
+    # the sweep embedded between mild days: the first and the last row of the reporting frame lie between the balance points
+    for shape in ("hdd_tidd_cdd", "hdd_tidd_cdd_smooth", "hdd_tidd", "tidd_cdd"):
+        for i in range(0, len(dd.lattice(shape, tier, dd.TC_WIDE)), 1 if tier == "thorough" else 4):
+            out.append({"shape": shape, "tc": "wide", "i": i, "padded": True})
     # a negative temperature-independent load (net-metered site: the fitted intercept of a solar home is below zero): every 3rd point
     for shape in dd.SHAPES:
         for i in range(0, len(dd.lattice(shape, tier, dd.TC_WIDE)), 1 if tier == "thorough" else 3):
@@ -242,6 +246,10 @@ def run_case(case):
         m = em.DailyModel.from_dict(doc)
     if case.get("split") == "wd_we":
         return run_split_case(case, em, c, tc, T)
+    if case.get("padded"):
+        # rows are evaluated in calendar order: a mild day first and last (inside the dead band, or at the single balance point)
+        mild = 0.5 * (e["hdd_bp"] + e["cdd_bp"])
+        T = np.concatenate([[mild], T, [mild]])
     Tcol = T
     if case.get("t_dtype") == "int64":
         T = np.arange(-60.0, 141.0)           # whole degrees
@@ -255,8 +263,15 @@ def run_case(case):
     viol = []
     if not np.array_equal(p["temperature"].to_numpy(dtype="float64"), T):
         return {"rejected": "temperature not passed through unchanged by the data class"}
-    got = check_curve(c, tc, T, p["predicted"].to_numpy(float), p["heating_load"].to_numpy(float),
-                      p["cooling_load"].to_numpy(float))
+    P, Hh, Cc = p["predicted"].to_numpy(float), p["heating_load"].to_numpy(float), p["cooling_load"].to_numpy(float)
+    if case.get("padded"):
+        order = np.argsort(T, kind="stable")
+        keep = np.concatenate([[True], np.diff(T[order]) > 0])
+        extra_v = []
+        if not (P[0] == P[-1]):
+            extra_v.append(("same_temperature_different_prediction", f"the two rows at {T[0]!r} F are predicted {P[0]!r} and {P[-1]!r}"))
+        T, P, Hh, Cc = T[order][keep], P[order][keep], Hh[order][keep], Cc[order][keep]
+    got = check_curve(c, tc, T, P, Hh, Cc) + (extra_v if case.get("padded") else [])
     fr = "none"
     if case["shape"] == "hdd_tidd_cdd_smooth":
         s = (c["hdd_k"] or 0) + (c["cdd_k"] or 0)
@@ -274,6 +289,7 @@ def run_case(case):
                                                **({"key_order": case["key_order"]} if case.get("key_order") else {}),
                                                **({"t_dtype": case["t_dtype"]} if case.get("t_dtype") else {}),
                                                **({"intercept": "negative"} if case.get("intercept") is not None else {}),
+                                               **({"frame": "mild_day_first_and_last"} if case.get("padded") else {}),
                                                **({"document": "reversed_balance_points"} if case.get("reversed_bps") else {})},
                      "detail": f"{detail} | coefficients {c} tc {tc}"})
     pr = p["predicted"].to_numpy(float)
